@@ -239,6 +239,23 @@ def r3_reader(ctx):
         ctx.ob(rule, SF, '%s row: piece=%s suffix=%s ep=%s castle=%s' % (kind, piece, promo, None if ep is None else is_true(ep[1]), true_castles or None),
                ok, found=[show_cond(c) for c in conds][:8], expected=want,
                why='the move read back must be of the kind that was rendered')
+        if kind in ('Standard', 'PawnPromotion'):
+            cap = fields.get('captures')
+            to_t = fields.get('to_square')
+            gets = [(a, val) for a, val in conds if a[0] == 'discr' and a[1][0] == 'call' and a[1][1] == BOARD + '::get' and a[1][2][1] == to_t]
+            okcap = False
+            if gets:
+                occupied = gets[0][1] == 1
+                g = gets[0][0][1]
+                if occupied:
+                    want_cap = ('agg', 'adt', 'std::option::Option', 'Some', (('0', ('agg', 'adt', 'chess::chess_move::capture::Capture', 'Capture',
+                                (('0', ('fld', ('fld', g, 'Some.0'), '0')),))),))
+                    okcap = cap == want_cap
+                else:
+                    okcap = cap is not None and cap[0] == 'agg' and cap[3] == 'None'
+            ctx.ob(rule, SF, '%s row: capture = piece standing on the destination (%s)' % (kind, 'occupied' if gets and gets[0][1] == 1 else 'empty'), okcap,
+                   found=show(cap)[:160] if cap else None, expected='board.get(to).map(|(p, _)| Capture(p))',
+                   why='the move read back must carry the capture the rendered move carried, or apply rejects it')
         if kind != 'Castle':
             sf = fields.get('from_square')
             st_ = fields.get('to_square')
